@@ -62,6 +62,18 @@ CALLERS_OK = {
                         "tls13ParseClientHello"},
 }
 MUST_ACTIVATE = {"tls13ActivateEarlyDataWriteKeys", "tls13ActivateAppWriteKeys"}
+# who may install a write key (each installation restarts the write sequence number): the encoder, right after it has
+# sealed the message that ends a key phase - never the decoder, never twice for one phase
+INSTALLERS_OK = {
+    "sslActivateWriteCipher": {"matrixSslNewSession": "NULL cipher at session creation",
+                               "processFinished": "TLS <=1.2 / DTLS: own ChangeCipherSpec + Finished being encoded",
+                               "tls13ActivateHsWriteKeys": "TLS 1.3 wrapper", "tls13ActivateAppWriteKeys": "TLS 1.3 wrapper",
+                               "tls13ActivateEarlyDataWriteKeys": "TLS 1.3 wrapper"},
+    "tls13ActivateHsWriteKeys": {"tls13EncryptMessage": "after the own ServerHello / EndOfEarlyData was sealed",
+                                 "tls13EncodeResponseClient": "client without early data: before its second flight"},
+    "tls13ActivateAppWriteKeys": {"tls13EncryptMessage": "after the own Finished was sealed"},
+    "tls13ActivateEarlyDataWriteKeys": {"tls13SetUpClientEarlyData": "client offering early data, right after ClientHello"},
+}
 
 
 def field_of(e):
@@ -471,6 +483,20 @@ def run(tier):
                              "the old key continues with the counter restarted" % (name, ln, path[-1][1]), file=fn.relfile, line=ln)
             res.instance("C17.R2", "%s: zeroing at line %s is followed by sslActivateWriteCipher on every path" % (name, ln),
                          path is None, finding=f_)
+    for name, allowed in sorted(INSTALLERS_OK.items()):
+        fn = prog.fn(name, required=False)
+        if fn is None:
+            continue
+        callers = set(prog.functions[c].name for c in cg.callers.get(fn.qname, ()))
+        extra = callers - set(allowed)
+        f_ = None
+        if extra:
+            f_ = Finding(PROP, "C17.R2", name, "write key (re)installed from %s" % sorted(extra)[0],
+                         "%s restarts the write sequence number; it may only be called where a new write key phase begins "
+                         "(%s). New caller(s): %s - installing the key of the current phase again makes the following records reuse "
+                         "nonces already consumed under that key" % (name, "; ".join("%s: %s" % kv for kv in sorted(allowed.items())),
+                                                                    sorted(extra)), file=fn.relfile, line=fn.line)
+        res.instance("C17.R2", "%s: callers %s within the reviewed installers" % (name, sorted(callers)), not extra, finding=f_)
     for name, allowed in sorted(CALLERS_OK.items()):
         fn = prog.fn(name, required=False)
         if fn is None:
